@@ -2,7 +2,7 @@
 import ast
 from ..engine.model import AnalysisError, dotted
 from ..engine.context import unparse, enclosing_stmt, stores_in, in_lock_region, enclosing_withs, enclosing_loops, enclosing_trys
-from ..engine.cfg import walk_no_nested, calls_in, facts_of, no_exc
+from ..engine.cfg import stmt_exprs, walk_no_nested, calls_in, facts_of, no_exc
 from .c03 import edge_has_fact
 
 EXPLANATION = (
@@ -146,6 +146,62 @@ def run(ctx, R, tier):
     ok = len(creates) == 1 and all(cfg.guarded(n, lambda e: edge_has_fact(e, bound_true)) for n in ctx.node_of(proc, creates[0]))
     R.check(ok, "C18-R3", "Pool.process|new-worker-under-bound", "a new worker is created only on the true edge of num_workers() < config.THREADPOOL_SIZE", proc.loc(),
             "workers can be created beyond THREADPOOL_SIZE")
+    # set discipline of process(): the chosen worker leaves idle (pop), is counted busy on every non-raising path, and a newly made worker is started
+    addn = [n for c in adds for n in ctx.node_of(proc, c)]
+    ok = bool(addn) and cfg.all_paths_pass([cfg.entry], lambda n: n in addn, edge_ok=no_exc, targets=[cfg.exit]) and all(a.args and isinstance(a.args[0], ast.Name) for a in adds)
+    wvar = adds[0].args[0].id if adds and adds[0].args and isinstance(adds[0].args[0], ast.Name) else None
+    R.check(ok, "C18-R3", "Pool.process|chosen-worker-counted-busy", "every non-raising path adds the chosen worker to busy", proc.loc(adds[0]) if adds else proc.loc(),
+            "a worker can be given a job without being counted busy: num_workers() under-counts and the pool grows beyond THREADPOOL_SIZE")
+    from_idle = [st for st, t, k in stores_in(proc.node) if k == "assign" and isinstance(t, ast.Name) and t.id == wvar and isinstance(st.value, ast.Call)]
+    ok = any(unparse(st.value.func) == "self.idle.pop" for st in from_idle) and \
+        all(unparse(st.value.func) == "self.idle.pop" or ctx.is_call_to(st.value, proc, "Pyro5.svr_threads.Worker.__init__") for st in from_idle)
+    R.check(ok, "C18-R3", "Pool.process|idle-worker-removed-from-idle", "an idle worker is taken out of the idle set when it is chosen (pop)", proc.loc(),
+            "the chosen idle worker stays in the idle set: the next connection is handed to the same, still busy, worker and its job slot is overwritten")
+    starts = [n for c in walk_no_nested(proc.node) if isinstance(c, ast.Call) and isinstance(c.func, ast.Attribute) and c.func.attr == "start" and unparse(c.func.value) == wvar
+              for n in ctx.node_of(proc, c)]
+    cn = [n for c in creates for n in ctx.node_of(proc, c)]
+    ok = bool(starts) and bool(cn) and cfg.all_paths_pass(cn, lambda n: n in starts, edge_ok=no_exc, targets=hn if hand else [cfg.exit])
+    R.check(ok, "C18-R3", "Pool.process|new-worker-started", "a newly created worker thread is started before it is given the job", proc.loc(),
+            "a new worker gets the job without having been started: the connection is accepted and never served")
+    def idle_nonempty(want):
+        def pred(atom, pol):
+            return pol is want and unparse(atom) == "self.idle"
+        return pred
+    popn = [n for st in from_idle if unparse(st.value.func) == "self.idle.pop" for n in cfg.nodes_for(st)]
+    refuse = [n for n in raises if es.class_of_expr(n.ast.exc.func if isinstance(n.ast.exc, ast.Call) else n.ast.exc, proc) == "Pyro5.svr_threads.NoFreeWorkersError"]
+    ok = bool(popn) and all(cfg.guarded(n, lambda e: edge_has_fact(e, idle_nonempty(True))) for n in popn) and \
+        all(cfg.guarded(n, lambda e: edge_has_fact(e, idle_nonempty(False))) for n in cn + refuse)
+    R.check(ok, "C18-R3", "Pool.process|idle-first", "an idle worker is reused whenever there is one; a new worker or a refusal only when the idle set is empty", proc.loc(),
+            "the idle set is not consulted first: connections are refused (or threads created) although idle workers exist, or pop() runs on an empty set")
+    # set discipline of notify_done(): out of busy; then either back to idle (below the minimum, pool open) or retired with a None job
+    ndf = ctx.fn("Pyro5.svr_threads.Pool.notify_done")
+    ncfg = ctx.cfg(ndf)
+    wp = ndf.params[1]
+    rem = [n for c in walk_no_nested(ndf.node) if isinstance(c, ast.Call) and unparse(c.func) in ("self.busy.remove", "self.busy.discard") and c.args and unparse(c.args[0]) == wp
+           for n in ctx.node_of(ndf, c)]
+
+    def not_busy(atom, pol):
+        return pol is False and isinstance(atom, ast.Compare) and len(atom.ops) == 1 and isinstance(atom.ops[0], ast.In) and unparse(atom.left) == wp and unparse(atom.comparators[0]) == "self.busy"
+    ok = bool(rem) and ncfg.all_paths_cross([ncfg.entry], lambda e: (e.src in rem and e.kind != "exc") or edge_has_fact(e, not_busy), edge_ok=no_exc, targets=[ncfg.exit])
+    R.check(ok, "C18-R4", "Pool.notify_done|leaves-busy", "a finished worker is removed from busy on every path", ndf.loc(),
+            "a finished worker can stay in the busy set: the pool counts it forever and refuses connections although workers are free")
+    idle_add = [n for c in walk_no_nested(ndf.node) if isinstance(c, ast.Call) and unparse(c.func) == "self.idle.add" and c.args and unparse(c.args[0]) == wp for n in ctx.node_of(ndf, c)]
+    retire = [n for c in walk_no_nested(ndf.node) if isinstance(c, ast.Call) and unparse(c.func) == "%s.process" % wp and c.args and isinstance(c.args[0], ast.Constant)
+              and c.args[0].value is None for n in ctx.node_of(ndf, c)]
+    ok = bool(idle_add) and bool(retire) and ncfg.all_paths_pass([ncfg.entry], lambda n: n in idle_add or n in retire, edge_ok=no_exc, targets=[ncfg.exit])
+    R.check(ok, "C18-R4", "Pool.notify_done|idle-or-retired", "every path either puts the worker back into idle or retires it with a None job", ndf.loc(),
+            "a finished worker can be neither idle nor told to stop: the thread waits forever and is lost to the pool")
+
+    def below_min(atom, pol):
+        if isinstance(atom, ast.Compare) and len(atom.ops) == 1 and unparse(atom.left) == "len(self.idle)" and unparse(atom.comparators[0]).endswith("THREADPOOL_SIZE_MIN"):
+            return (isinstance(atom.ops[0], ast.GtE) and pol is False) or (isinstance(atom.ops[0], ast.Lt) and pol is True)
+        return False
+
+    def open_(atom, pol):
+        return pol is False and unparse(atom) == "self.closed"
+    ok = bool(idle_add) and all(ncfg.guarded(n, lambda e: edge_has_fact(e, below_min)) and ncfg.guarded(n, lambda e: edge_has_fact(e, open_)) for n in idle_add)
+    R.check(ok, "C18-R4", "Pool.notify_done|idle-only-below-minimum-and-open", "a worker returns to idle only while the pool is open and holds fewer than THREADPOOL_SIZE_MIN idle workers", ndf.loc(),
+            "finished workers are kept idle without the minimum-size test (or after close): idle threads accumulate / survive the close")
     ret = nw.node.body[-1] if nw.node.body else None
     ok = isinstance(ret, ast.Return) and {unparse(x) for x in ast.walk(ret.value) if isinstance(x, ast.Attribute)} >= SETS
     R.check(ok, "C18-R3", "Pool.num_workers|counts-both-sets", "num_workers counts busy and idle workers", nw.loc(),
@@ -209,6 +265,15 @@ def run(ctx, R, tier):
         return isinstance(atom, ast.Compare) and len(atom.ops) == 1 and unparse(atom.left) == "self.job" and isinstance(atom.comparators[0], ast.Constant) \
             and atom.comparators[0].value is None and ((isinstance(atom.ops[0], ast.Is) and pol is False) or (isinstance(atom.ops[0], ast.IsNot) and pol is True))
     ok = bool(brk) and bool(jobcall) and all(wcfg.guarded(n, lambda e: edge_has_fact(e, job_not_none)) for n in jobcall)
+    waits = [n for c in walk_no_nested(wr.node) if isinstance(c, ast.Call) and unparse(c.func) == "self.job_available.wait" for n in ctx.node_of(wr, c)]
+    clears = [n for c in walk_no_nested(wr.node) if isinstance(c, ast.Call) and unparse(c.func) == "self.job_available.clear" for n in ctx.node_of(wr, c)]
+    reads = [n for n in wcfg.nodes if n.kind in ("test", "stmt") and any(unparse(x) == "self.job" and isinstance(x.ctx, ast.Load) for e_ in stmt_exprs(n) for x in ast.walk(e_) if isinstance(x, ast.Attribute))]
+    ok_ev = bool(waits) and bool(clears) and bool(reads) and all(any(wcfg.dominates(w, c_) for w in waits) for c_ in clears) and \
+        all(any(wcfg.dominates(c_, r) for c_ in clears) for r in reads) and \
+        all(wcfg.all_paths_pass([r], lambda n: n in waits, edge_ok=no_exc, targets=[r]) for r in reads[:1])
+    R.check(ok_ev, "C18-R4", "Worker.run|event-waited-and-cleared", "each round of the worker loop waits for the event and clears it before it reads the job slot", wr.loc(),
+            "the worker reads its job slot without a fresh wait()/clear() of the event: after its first job it sees a set event with an empty slot, takes that as the stop "
+            "signal and exits while the pool still lists it as idle")
     R.check(ok, "C18-R4", "Worker.run|none-ends-thread", "a None job ends the worker loop and is never called", wr.loc(),
             "the worker does not leave its loop on a None job (close() could never stop it) or calls None")
     ccfg = ctx.cfg(close)
